@@ -353,4 +353,451 @@ Proof.
   rewrite <- Hpl, !map_length. apply length_chunks. apply pl_pos.
 Qed.
 
+(* ---------- HasherHybrid ---------- *)
+
+(* what the code feeds to sha1 for the piece p, and what it does to padding_file *)
+Definition hy_piece (padding : bool) (p : bytes) : bytes :=
+  if (0 <? pl - length p) && padding then p ++ zeros (pl - length p) else p.
+Definition hy_pf (padding : bool) (pf : option nat) (p : bytes) : option nat :=
+  if (0 <? pl - length p) && padding then Some (pl - length p) else pf.
+
+Lemma firstn_pl_nonempty (cur : bytes) : cur <> [] -> firstn pl cur <> [].
+Proof.
+  intros Hne H0. pose proof pl_pos. apply (f_equal (@length _)) in H0.
+  rewrite firstn_length in H0. destruct cur; [congruence|]. cbn [length] in H0. lia.
+Qed.
+
+Lemma hy_loop_spec padding : forall fuel cur lh ps pf, length cur < fuel ->
+  hy_loop H256 B fuel padding pl (2 ^ k) cur lh ps pf =
+  (lh ++ layer_of (is_nil lh) (chunks pl cur),
+   ps ++ map (hy_piece padding) (chunks pl cur),
+   fold_left (hy_pf padding) (chunks pl cur) pf).
+Proof.
+  induction fuel as [|f IH]; intros cur lh ps pf Hf; [lia|].
+  cbn [hy_loop]. rewrite hy_read_blocks_spec, amount_B. cbn [app].
+  destruct cur as [|x cur0] eqn:E.
+  - rewrite firstn_nil, !chunks_nil. cbn [map layer_of fold_left]. rewrite !app_nil_r. reflexivity.
+  - rewrite <- E in *. assert (Hne : cur <> []) by (subst cur; discriminate).
+    assert (Hlen : 0 < length cur) by (subst cur; cbn [length]; lia).
+    pose proof pl_pos as Hplpos.
+    fold (blocks_of (firstn pl cur)).
+    destruct (blocks_of (firstn pl cur)) as [|b0 bs] eqn:Eb.
+    + exfalso. revert Eb. apply blocks_of_nonempty, firstn_pl_nonempty. exact Hne.
+    + rewrite <- Eb. rewrite hy_pad_blocks_eq.
+      rewrite (chunks_cons pl cur) by assumption. cbn [layer_of map fold_left].
+      unfold hy_piece at 1. unfold hy_pf at 2.
+      destruct ((0 <? pl - length (firstn pl cur)) && padding) eqn:Ep;
+        rewrite IH by (rewrite skipn_length; lia);
+        rewrite is_nil_snoc, <- !app_assoc; reflexivity.
+Qed.
+
+Lemma calculate_root_same lh :
+  hy_calculate_root (2 ^ k) lh =
+  (fst (v2_calculate_root (2 ^ k) lh), snd (v2_calculate_root (2 ^ k) lh),
+   snd (hy_calculate_root (2 ^ k) lh)).
+Proof. reflexivity. Qed.
+
+Lemma hasher_hybrid_eq padding data :
+  hasher_hybrid padding pl data =
+  (fst (hasher_v2 pl data), snd (hasher_v2 pl data),
+   map (hy_piece padding) (chunks pl data),
+   fold_left (hy_pf padding) (chunks pl data) None).
+Proof.
+  unfold HasherV2.hasher_hybrid. cbv zeta. rewrite pl_div, hy_loop_spec by lia.
+  cbn [app is_nil]. rewrite hasher_v2_eq, calculate_root_same. reflexivity.
+Qed.
+
+Lemma hy_piece_false p : hy_piece false p = p.
+Proof. unfold hy_piece. rewrite andb_false_r. reflexivity. Qed.
+
+Lemma hy_piece_true p : hy_piece true p = pad_piece pl p.
+Proof.
+  unfold hy_piece, pad_piece. rewrite andb_true_r.
+  destruct (0 <? pl - length p) eqn:E; [reflexivity|].
+  apply Nat.ltb_ge in E. replace (pl - length p) with 0 by lia.
+  cbn [zeros repeat]. rewrite app_nil_r. reflexivity.
+Qed.
+
+(* full pieces, then possibly one short rest whose length is length data mod pl *)
+Lemma chunks_decomp (data : bytes) : exists ps r,
+  chunks pl data = ps ++ (match r with [] => [] | _ => [r] end) /\
+  Forall (fun p => length p = pl) ps /\ length r < pl /\ data = concat ps ++ r /\
+  length data mod pl = length r.
+Proof.
+  destruct (chunks_full_or_last pl data pl_pos) as [ps [r [E [F [Hr C]]]]].
+  exists ps, r. repeat split; try assumption.
+  rewrite C at 1. rewrite app_length, (length_concat_full pl) by assumption.
+  rewrite Nat.add_comm, Nat.mod_add by lia. apply Nat.mod_small. assumption.
+Qed.
+
+Lemma fold_hy_pf_full padding ps : Forall (fun p => length p = pl) ps ->
+  forall pf, fold_left (hy_pf padding) ps pf = pf.
+Proof.
+  intros F. induction F as [|p ps Hp _ IH]; intros pf; [reflexivity|].
+  cbn [fold_left]. rewrite IH. unfold hy_pf. rewrite Hp, Nat.sub_diag. reflexivity.
+Qed.
+
+Lemma hybrid_padding_file padding data :
+  fold_left (hy_pf padding) (chunks pl data) None =
+  if padding then pad_file_length pl data else None.
+Proof.
+  destruct (chunks_decomp data) as [ps [r [E [F [Hr [C M]]]]]].
+  rewrite E, fold_left_app, (fold_hy_pf_full padding ps F).
+  unfold pad_file_length. rewrite M. destruct r as [|x r].
+  - cbn [fold_left length Nat.eqb]. destruct padding; reflexivity.
+  - cbn [fold_left]. unfold hy_pf.
+    assert (E1 : (0 <? pl - length (x :: r)) = true) by (apply Nat.ltb_lt; lia).
+    rewrite E1. cbn [andb length Nat.eqb]. reflexivity.
+Qed.
+
+Lemma hybrid_pieces padding data :
+  map (hy_piece padding) (chunks pl data) =
+  if padding then v1_inputs_padded pl data else v1_inputs_plain pl data.
+Proof.
+  destruct padding.
+  - unfold v1_inputs_padded. apply map_ext. apply hy_piece_true.
+  - unfold v1_inputs_plain. rewrite (map_ext _ (fun p => p)) by apply hy_piece_false.
+    apply map_id.
+Qed.
+
+(* "the last chunk zero-extended": the padded inputs are the pl-slices of the file followed
+   by its pad file *)
+Theorem v1_inputs_padded_chunks data :
+  v1_inputs_padded pl data =
+  chunks pl (data ++ zeros (match pad_file_length pl data with Some n => n | None => 0 end)).
+Proof.
+  pose proof pl_pos as Hplpos.
+  destruct (chunks_decomp data) as [ps [r [E [F [Hr [C M]]]]]].
+  unfold v1_inputs_padded, pad_file_length. rewrite E, M, map_app.
+  rewrite (map_id_Forall (pad_piece pl) (fun p => length p = pl)); [|
+    intros p Hp; unfold pad_piece; rewrite Hp, Nat.sub_diag; apply app_nil_r | assumption].
+  destruct r as [|x r].
+  - cbn [length Nat.eqb map zeros repeat]. rewrite !app_nil_r. rewrite C, app_nil_r.
+    symmetry. apply chunks_all_full; assumption.
+  - cbn [length Nat.eqb map]. rewrite C at 1. rewrite <- app_assoc.
+    rewrite chunks_app_multiple
+      by (try assumption; exists (length ps); apply length_concat_full; assumption).
+    rewrite chunks_all_full by assumption. f_equal.
+    symmetry. apply chunks_short; [assumption|discriminate|].
+    unfold pad_piece. rewrite app_length, zeros_length. cbn [length] in *. lia.
+Qed.
+
+(* everything but the last v1 input is a pl-slice of the file *)
+Theorem hasher_hybrid_correct padding data : data <> [] ->
+  hasher_hybrid padding pl data =
+  (bep52_root data, snd (hasher_v2 pl data),
+   (if padding then v1_inputs_padded pl data else v1_inputs_plain pl data),
+   (if padding then pad_file_length pl data else None)).
+Proof.
+  intros Hne. rewrite hasher_hybrid_eq, hybrid_pieces, hybrid_padding_file.
+  rewrite hasher_v2_root by assumption. reflexivity.
+Qed.
+
+(* C10, hashers: same root and same layer *)
+Corollary hasher_hybrid_agrees_v2 padding data :
+  fst (fst (hasher_hybrid padding pl data)) = hasher_v2 pl data.
+Proof. rewrite hasher_hybrid_eq. cbn [fst]. symmetry. apply surjective_pairing. Qed.
+
+Lemma pad_file_length_spec data n :
+  pad_file_length pl data = Some n <->
+  length data mod pl <> 0 /\ n = pl - length data mod pl.
+Proof.
+  unfold pad_file_length. destruct (length data mod pl =? 0) eqn:E.
+  - apply Nat.eqb_eq in E. split; [discriminate|]. intros [H0 _]. congruence.
+  - apply Nat.eqb_neq in E. split.
+    + intros H0. injection H0 as <-. split; [assumption|reflexivity].
+    + intros [_ ->]. reflexivity.
+Qed.
+
+(* the v1 digests of a hybrid single file *)
+Corollary hasher_hybrid_v1_digests padding data :
+  map H1 (snd (fst (hasher_hybrid padding pl data))) =
+  map H1 (if padding then v1_inputs_padded pl data else chunks pl data).
+Proof. rewrite hasher_hybrid_eq. cbn [fst snd]. rewrite hybrid_pieces. reflexivity. Qed.
+
+(* ---------- FileHasher ---------- *)
+
+Definition fh_obs (r : fh_state * list bytes * list bytes) :=
+  let '(st, yl, yp) := r in
+  (fh_root st, fh_piece_layer st, fh_pieces st, fh_padding_file st, yl, yp).
+
+Lemma fh_drive_spec hybrid padding : forall fuel cur lh ps pf yl yp,
+  length cur + 2 <= fuel ->
+  fh_obs (fh_drive H256 B fuel hybrid padding pl (2 ^ k)
+            (mk_fh cur lh ps pf false None None) yl yp) =
+  (Some (fst (v2_calculate_root (2 ^ k) (lh ++ layer_of (is_nil lh) (chunks pl cur)))),
+   Some (lh ++ layer_of (is_nil lh) (chunks pl cur)),
+   (if hybrid then ps ++ map (hy_piece padding) (chunks pl cur) else ps),
+   (if hybrid then fold_left (hy_pf padding) (chunks pl cur) pf else pf),
+   yl ++ layer_of (is_nil lh) (chunks pl cur),
+   (if hybrid then yp ++ map (hy_piece padding) (chunks pl cur) else yp)).
+Proof.
+  induction fuel as [|f IH]; intros cur lh ps pf yl yp Hf; [lia|].
+  cbn [fh_drive]. unfold fh_next.
+  cbn [fh_end fh_cur fh_layer_hashes fh_pieces fh_padding_file fh_root fh_piece_layer].
+  rewrite hy_read_blocks_spec, amount_B. cbn [app].
+  destruct cur as [|x cur0] eqn:E.
+  - rewrite firstn_nil, !chunks_nil. cbn [map layer_of fold_left].
+    unfold fh_do_calculate_root.
+    cbn [fh_end fh_cur fh_layer_hashes fh_pieces fh_padding_file fh_root fh_piece_layer].
+    rewrite calculate_root_same. cbn [fh_obs].
+    cbn [fh_end fh_cur fh_layer_hashes fh_pieces fh_padding_file fh_root fh_piece_layer].
+    rewrite !app_nil_r. destruct hybrid; reflexivity.
+  - rewrite <- E in *. assert (Hne : cur <> []) by (subst cur; discriminate).
+    assert (Hlen : 0 < length cur) by (subst cur; cbn [length]; lia).
+    pose proof pl_pos as Hplpos.
+    fold (blocks_of (firstn pl cur)).
+    destruct (blocks_of (firstn pl cur)) as [|b0 bs] eqn:Eb.
+    + exfalso. revert Eb. apply blocks_of_nonempty, firstn_pl_nonempty. exact Hne.
+    + rewrite <- Eb.
+      cbn [fh_end fh_cur fh_layer_hashes fh_pieces fh_padding_file fh_root fh_piece_layer].
+      rewrite hy_pad_blocks_eq.
+      rewrite (chunks_cons pl cur) by assumption. cbn [layer_of map fold_left].
+      set (lhash := piece_hash (is_nil lh) (firstn pl cur)).
+      assert (Hpiece : hy_piece padding (firstn pl cur) =
+                       if (0 <? pl - length (firstn pl cur)) && padding
+                       then firstn pl cur ++ zeros (pl - length (firstn pl cur))
+                       else firstn pl cur) by reflexivity.
+      assert (Hpf : forall pf0, hy_pf padding pf0 (firstn pl cur) =
+                       if (0 <? pl - length (firstn pl cur)) && padding
+                       then Some (pl - length (firstn pl cur)) else pf0) by reflexivity.
+      destruct ((0 <? 2 ^ k) && (length cur <=? (2 ^ k - 1) * B)) eqn:Ehit.
+      * (* a read returned 0 bytes inside this piece: it is the last one *)
+        apply andb_prop in Ehit. destruct Ehit as [_ Ehit]. apply Nat.leb_le in Ehit.
+        assert (Hshort : length cur < pl).
+        { rewrite <- amount_B. pose proof (pow2_pos k).
+          rewrite Nat.mul_sub_distr_r in Ehit. lia. }
+        rewrite (skipn_all2 cur) by lia. rewrite chunks_nil.
+        cbn [layer_of map fold_left].
+        unfold fh_do_calculate_root.
+        cbn [fh_end fh_cur fh_layer_hashes fh_pieces fh_padding_file fh_root fh_piece_layer].
+        rewrite calculate_root_same.
+        destruct f as [|f']; [lia|].
+        destruct hybrid.
+        -- rewrite Hpiece, Hpf.
+           destruct ((0 <? pl - length (firstn pl cur)) && padding) eqn:Ep;
+             cbn [fh_drive]; unfold fh_next;
+             cbn [fh_end fh_cur fh_layer_hashes fh_pieces fh_padding_file fh_root
+                  fh_piece_layer fh_obs];
+             reflexivity.
+        -- cbn [fh_drive]. unfold fh_next.
+           cbn [fh_end fh_cur fh_layer_hashes fh_pieces fh_padding_file fh_root
+                fh_piece_layer fh_obs].
+           reflexivity.
+      * (* the piece was read without meeting the end of the file *)
+        assert (Hf' : length (skipn pl cur) + 2 <= f) by (rewrite skipn_length; lia).
+        destruct hybrid.
+        -- rewrite Hpiece, Hpf.
+           destruct ((0 <? pl - length (firstn pl cur)) && padding) eqn:Ep;
+             cbn [fh_end fh_cur fh_layer_hashes fh_pieces fh_padding_file fh_root
+                  fh_piece_layer];
+             rewrite IH by exact Hf';
+             rewrite is_nil_snoc, <- !app_assoc; reflexivity.
+        -- cbn [fh_end fh_cur fh_layer_hashes fh_pieces fh_padding_file fh_root
+                fh_piece_layer].
+           rewrite IH by exact Hf'.
+           rewrite is_nil_snoc, <- !app_assoc; reflexivity.
+Qed.
+
+Lemma file_hasher_run_spec hybrid padding data :
+  let r := file_hasher_run hybrid padding pl data in
+  fhr_root r = Some (fst (hasher_v2 pl data)) /\
+  fhr_piece_layer r = Some (snd (hasher_v2 pl data)) /\
+  fhr_pieces r = (if hybrid then map (hy_piece padding) (chunks pl data) else []) /\
+  fhr_padding_file r =
+    (if hybrid then fold_left (hy_pf padding) (chunks pl data) None else None) /\
+  fhr_yielded_layers r = snd (hasher_v2 pl data) /\
+  fhr_yielded_pieces r = fhr_pieces r.
+Proof.
+  cbv zeta. unfold HasherV2.file_hasher_run. cbv zeta. rewrite pl_div. unfold fh_init.
+  pose proof (fh_drive_spec hybrid padding (length data + 2) data [] [] None [] []
+                (Nat.le_refl _)) as S.
+  destruct (fh_drive H256 B (length data + 2) hybrid padding pl (2 ^ k)
+              (mk_fh data [] [] None false None None) [] []) as [[st yl] yp].
+  cbn [fh_obs app is_nil] in S. rewrite <- hasher_v2_eq in S.
+  injection S as S1 S2 S3 S4 S5 S6.
+  cbn [fhr_root fhr_piece_layer fhr_pieces fhr_padding_file fhr_yielded_layers
+       fhr_yielded_pieces].
+  rewrite S1, S2, S3, S4, S5, S6.
+  assert (E2 : snd (hasher_v2 pl data) = layer_of true (chunks pl data))
+    by (rewrite hasher_v2_eq; reflexivity).
+  rewrite E2. repeat split; reflexivity.
+Qed.
+
+(* FileHasher(hybrid=True) = HasherHybrid *)
+Theorem file_hasher_hybrid padding data :
+  file_hasher true padding pl data = hasher_hybrid padding pl data.
+Proof.
+  destruct (file_hasher_run_spec true padding data) as [R [L [P [F _]]]].
+  cbv zeta in R, L, P, F. unfold HasherV2.file_hasher. cbv zeta.
+  rewrite R, L, P, F, hasher_hybrid_eq. reflexivity.
+Qed.
+
+(* FileHasher(hybrid=False) = HasherV2; no pieces, no padding file *)
+Theorem file_hasher_v2 padding data :
+  file_hasher false padding pl data =
+  (fst (hasher_v2 pl data), snd (hasher_v2 pl data), [], None).
+Proof.
+  destruct (file_hasher_run_spec false padding data) as [R [L [P [F _]]]].
+  cbv zeta in R, L, P, F. unfold HasherV2.file_hasher. cbv zeta.
+  rewrite R, L, P, F. reflexivity.
+Qed.
+
+(* what the iterator yields is what it stores *)
+Theorem file_hasher_yields hybrid padding data :
+  let r := file_hasher_run hybrid padding pl data in
+  Some (fhr_yielded_layers r) = fhr_piece_layer r /\ fhr_yielded_pieces r = fhr_pieces r.
+Proof.
+  destruct (file_hasher_run_spec hybrid padding data) as [_ [L [_ [_ [Y P]]]]].
+  cbv zeta in *. rewrite L, Y. split; [reflexivity|exact P].
+Qed.
+
+Theorem file_hasher_correct hybrid padding data : data <> [] ->
+  file_hasher hybrid padding pl data =
+  (bep52_root data, snd (hasher_v2 pl data),
+   (if hybrid then if padding then v1_inputs_padded pl data else v1_inputs_plain pl data
+    else []),
+   (if hybrid then if padding then pad_file_length pl data else None else None)).
+Proof.
+  intros Hne. destruct hybrid.
+  - rewrite file_hasher_hybrid. apply hasher_hybrid_correct. exact Hne.
+  - rewrite file_hasher_v2, hasher_v2_root by assumption. reflexivity.
+Qed.
+
+(* C10 for the hashers (DESIGN C10_hashers_agree) *)
+Theorem C10_hashers_agree padding data r l :
+  hasher_v2 pl data = (r, l) ->
+  exists ps pad,
+    hasher_hybrid padding pl data = (r, l, ps, pad) /\
+    file_hasher true padding pl data = (r, l, ps, pad) /\
+    file_hasher false padding pl data = (r, l, [], None).
+Proof.
+  intros E.
+  exists (map (hy_piece padding) (chunks pl data)),
+         (fold_left (hy_pf padding) (chunks pl data) None).
+  rewrite file_hasher_hybrid, file_hasher_v2, hasher_hybrid_eq, E. cbn [fst snd].
+  repeat split; reflexivity.
+Qed.
+
+(* the layer of every hasher has one entry per piece that contains data *)
+Corollary layer_length_all hybrid padding data :
+  length (snd (hasher_v2 pl data)) = ceil_div (length data) pl /\
+  length (snd (fst (fst (hasher_hybrid padding pl data)))) = ceil_div (length data) pl /\
+  length (snd (fst (fst (file_hasher hybrid padding pl data)))) = ceil_div (length data) pl.
+Proof.
+  rewrite hasher_hybrid_eq. cbn [fst snd].
+  destruct hybrid; [rewrite file_hasher_hybrid, hasher_hybrid_eq|rewrite file_hasher_v2];
+    cbn [fst snd]; repeat split; apply hasher_v2_layer_length.
+Qed.
+
 End Correct.
+
+(* ---------- examples (toy hash, B = 2 or 4, k = 1 or 2) ---------- *)
+Section Examples.
+Open Scope char_scope.
+Let H (x : bytes) : bytes := "<" :: x ++ [">"].
+Let alphabet : bytes :=
+  ["a";"b";"c";"d";"e";"f";"g";"h";"i";"j";"k";"l";"m";"n";"o";"p";"q";"r";"s";"t";"u";"v";"w";
+   "x";"y";"z";"A";"B";"C";"D";"E";"F";"G";"H";"I";"J";"K";"L";"M";"N"].
+Let d (n : nat) : bytes := firstn n alphabet.
+
+(* B = 2, k = 2, pl = 8: sizes < B, = B, B+1, = pl, pl+1, 2pl+3, 3pl, 4pl *)
+Let sizes2 : list nat := [1; 2; 3; 8; 9; 19; 24; 32].
+(* B = 4, k = 1, pl = 8 *)
+Let sizes4 : list nat := [3; 4; 5; 8; 9; 21; 24; 32].
+
+Example ex_v2_root_B2 :
+  map (fun n => fst (hasher_v2 H 2 8 (d n))) sizes2 = map (fun n => bep52_root H 2 (d n)) sizes2.
+Proof. vm_compute. reflexivity. Qed.
+
+Example ex_v2_root_B4 :
+  map (fun n => fst (hasher_v2 H 4 8 (d n))) sizes4 = map (fun n => bep52_root H 4 (d n)) sizes4.
+Proof. vm_compute. reflexivity. Qed.
+
+(* files longer than one piece: pl+1, 2pl+3, 3pl (3 pieces: not a power of two), 4pl *)
+Example ex_v2_layer_B2 :
+  map (fun n => snd (hasher_v2 H 2 8 (d n))) [9; 19; 24; 32]
+  = map (fun n => bep52_piece_layer H 2 2 (d n)) [9; 19; 24; 32].
+Proof. vm_compute. reflexivity. Qed.
+
+Example ex_v2_layer_B4 :
+  map (fun n => snd (hasher_v2 H 4 8 (d n))) [9; 21; 24; 32]
+  = map (fun n => bep52_piece_layer H 4 1 (d n)) [9; 21; 24; 32].
+Proof. vm_compute. reflexivity. Qed.
+
+(* files of at most one piece: the layer is [root] *)
+Example ex_v2_layer_one_piece :
+  map (fun n => snd (hasher_v2 H 2 8 (d n))) [1; 2; 3; 8]
+  = map (fun n => [bep52_root H 2 (d n)]) [1; 2; 3; 8].
+Proof. vm_compute. reflexivity. Qed.
+
+(* ... and for a file of at most HALF a piece that is NOT the piece-layer node of the tree
+   (the tree of such a file is lower than a piece): the unconditional statement
+   `snd (hasher_v2 pl data) = bep52_piece_layer k data` is false. *)
+Example ex_layer_small_file_differs :
+  snd (hasher_v2 H 2 8 (d 3)) <> bep52_piece_layer H 2 2 (d 3).
+Proof. intro E. vm_compute in E. discriminate E. Qed.
+
+Example ex_root_value : (* 3 bytes, B = 2: two leaves, no padding to a whole piece *)
+  fst (hasher_v2 H 2 8 (d 3)) = H (H ["a"; "b"] ++ H ["c"]).
+Proof. vm_compute. reflexivity. Qed.
+
+Example ex_hybrid_B2 :
+  map (fun n => hasher_hybrid H 2 true 8 (d n)) sizes2
+  = map (fun n => (bep52_root H 2 (d n), snd (hasher_v2 H 2 8 (d n)),
+                   v1_inputs_padded 8 (d n), pad_file_length 8 (d n))) sizes2.
+Proof. vm_compute. reflexivity. Qed.
+
+Example ex_hybrid_nopad_B4 :
+  map (fun n => hasher_hybrid H 4 false 8 (d n)) sizes4
+  = map (fun n => (bep52_root H 4 (d n), snd (hasher_v2 H 4 8 (d n)),
+                   chunks 8 (d n), None)) sizes4.
+Proof. vm_compute. reflexivity. Qed.
+
+Example ex_hybrid_pieces_19 :
+  snd (fst (hasher_hybrid H 2 true 8 (d 19))) =
+  [d 8; skipn 8 (d 16); ["q"; "r"; "s"] ++ zeros 5]
+  /\ snd (hasher_hybrid H 2 true 8 (d 19)) = Some 5
+  /\ snd (hasher_hybrid H 2 true 8 (d 24)) = None.
+Proof. vm_compute. repeat split; reflexivity. Qed.
+
+Example ex_file_hasher_B2 :
+  map (fun n => file_hasher H 2 true true 8 (d n)) sizes2
+  = map (fun n => hasher_hybrid H 2 true 8 (d n)) sizes2
+  /\ map (fun n => file_hasher H 2 false true 8 (d n)) sizes2
+  = map (fun n => (fst (hasher_v2 H 2 8 (d n)), snd (hasher_v2 H 2 8 (d n)), [], None)) sizes2.
+Proof. vm_compute. split; reflexivity. Qed.
+
+(* the `end` flag: an exact multiple of pl takes one more __next__ that reads 0 bytes and
+   leaves end = True; a short last piece sets and then clears it *)
+Example ex_file_hasher_end_flag :
+  fhr_end (file_hasher_run H 2 true true 8 (d 16)) = true /\
+  fhr_end (file_hasher_run H 2 true true 8 (d 13)) = false /\
+  fhr_end (file_hasher_run H 2 true true 8 (d 15)) = true.
+Proof. vm_compute. repeat split; reflexivity. Qed.
+
+End Examples.
+
+Print Assumptions merkle_root_tree_root.
+Print Assumptions tree_root_split.
+Print Assumptions pair_up_app.
+Print Assumptions iter_pair_app.
+Print Assumptions iter_pair_tree_root.
+Print Assumptions next_power_2_nat_spec.
+Print Assumptions next_power_2_nat_least.
+Print Assumptions hasher_v2_root.
+Print Assumptions hasher_v2_layer.
+Print Assumptions hasher_v2_layer_one_piece.
+Print Assumptions hasher_v2_layer_length.
+Print Assumptions bep52_piece_layer_length.
+Print Assumptions hasher_hybrid_correct.
+Print Assumptions hasher_hybrid_agrees_v2.
+Print Assumptions v1_inputs_padded_chunks.
+Print Assumptions pad_file_length_spec.
+Print Assumptions hasher_hybrid_v1_digests.
+Print Assumptions file_hasher_hybrid.
+Print Assumptions file_hasher_v2.
+Print Assumptions file_hasher_yields.
+Print Assumptions file_hasher_correct.
+Print Assumptions C10_hashers_agree.
+Print Assumptions layer_length_all.
